@@ -152,24 +152,30 @@ fn as_col(v: &Value) -> Value { json!({"r": v.as_array().unwrap().len(), "c": 1,
 pub fn run<T: Elem>(case: &Value, out: &mut Out) { run_with::<T>(case, out, step::<T>) }
 pub fn run_with<T: ElemBase>(case: &Value, out: &mut Out, step: fn(&mut Matrix<T>, &Value) -> StepOut<T>) {
     let cid = geti(case, "cid");
-    let mut m = mat_from::<T>(&case["init"], if T::CX { case.get("initi") } else { None });
+    let mut m1 = mat_from::<T>(&case["init"], if T::CX { case.get("initi") } else { None });
+    // an optional SECOND live object, used alternately with the first (operations carrying "obj": 2)
+    let mut m2 = if case.get("init2").is_some() { mat_from::<T>(&case["init2"], None) } else { Matrix::<T>::empty() };
+    let mut seen = [false, false];
     for (k, op) in case["ops"].as_array().unwrap().iter().enumerate() {
+        let obj = if op.get("obj").and_then(|v| v.as_i64()) == Some(2) { 2usize } else { 1 };
+        let m = if obj == 2 { &mut m2 } else { &mut m1 };
+        let first = !seen[obj - 1]; seen[obj - 1] = true;
         let name = gets(op, "op");
-        let pre_re = jmat(&m, Part::Re); let pre_im = jmat(&m, Part::Im);
+        let pre_re = jmat(&*m, Part::Re); let pre_im = jmat(&*m, Part::Im);
         // f64-only norms
         if matches!(name, "norm_1" | "norm_inf" | "norm_max" | "norm_units" | "lmul_scalar" | "empty") {
             if T::NAME == "f64" {
                 // on the REAL object (not a copy rebuilt from its projection): hidden storage must not leak into a norm
-                let mf: &Matrix<f64> = (&m as &dyn std::any::Any).downcast_ref::<Matrix<f64>>().expect("f64 matrix");
+                let mf: &Matrix<f64> = (&*m as &dyn std::any::Any).downcast_ref::<Matrix<f64>>().expect("f64 matrix");
                 let so = match guarded(|| step_f64(mf, op).unwrap()) { Ok(s) => s, Err(_) => { let mut s = StepOut::none(); s.panic = true; s } };
-                out.ev(event_for::<f64>(op, Part::Re, if k == 0 { Some(&pre_re) } else { None }, &pre_re, &so, cid, k));
+                out.ev(event_for::<f64>(op, Part::Re, if first { Some(&pre_re) } else { None }, &pre_re, &so, cid, k));
             }
             continue;
         }
-        let so = step(&mut m, op);
+        let so = step(m, op);
         let consumed = matches!(name, "neg_assign" | "matmul_assign") || gets(op, "form") == "into";
-        if so.panic && consumed { m = mat_from::<T>(&pre_re, if T::CX { Some(&pre_im) } else { None }); }   // the moved object is gone: continue from the operand
-        let post_re = jmat(&m, Part::Re); let post_im = jmat(&m, Part::Im);
+        if so.panic && consumed { *m = mat_from::<T>(&pre_re, if T::CX { Some(&pre_im) } else { None }); }   // the moved object is gone: continue from the operand
+        let post_re = jmat(&*m, Part::Re); let post_im = jmat(&*m, Part::Im);
         let bilinear = matches!(name, "matmul" | "matvec" | "matmul_self" | "matmul_assign");
         if T::CX && bilinear {
             // one event carrying both parts: (A+iB)(C+iD)
@@ -188,7 +194,7 @@ pub fn run_with<T: ElemBase>(case: &Value, out: &mut Out, step: fn(&mut Matrix<T
             e2["hist"] = json!("im"); out.ev(e2);
             continue;
         }
-        let mut e = event_for(op, Part::Re, if k == 0 { Some(&pre_re) } else { None }, &post_re, &so, cid, k);
+        let mut e = event_for(op, Part::Re, if first { Some(&pre_re) } else { None }, &post_re, &so, cid, k);
         if T::CX { e["hist"] = json!("re"); e["pre"] = pre_re.clone(); }
         out.ev(e);
         if T::CX && !matches!(name, "rows" | "cols" | "numel") {
@@ -200,7 +206,7 @@ pub fn run_with<T: ElemBase>(case: &Value, out: &mut Out, step: fn(&mut Matrix<T
 
 pub fn exec(case: &Value, out: &mut Out) {
     match gets(case, "ty") { "rat" => run::<crate::rat::Rat>(case, out), "f64" => run::<f64>(case, out), "i64" => run::<i64>(case, out), "cx" => run::<ohsl::Cmplx>(case, out),
-        "u32" => run_with::<u32>(case, out, step_base::<u32>), "f64bits" => run_bits(case, out), "f64scale" => run_scale(case, out), "f64soak" => run_soak(case, out),
+        "u32" => run_with::<u32>(case, out, step_base::<u32>), "f32" => run::<f32>(case, out), "i32" => run::<i32>(case, out), "f64bits" => run_bits(case, out), "f64scale" => run_scale(case, out), "f64soak" => run_soak(case, out),
         t => { eprintln!("TOOL-ERROR unknown type {}", t); std::process::exit(2) } }
 }
 
@@ -604,6 +610,32 @@ pub fn gen(tier: &str, seed: u64, out: &mut Out) {
         case["ops"] = Value::from(ops);
         push(out, case);
     } } }
+    // (m) TWO live matrices of the same type used alternately (state shared between instances instead of between calls):
+    //     each keeps its own model state in the trace specification; also the element types f32 and i32
+    for h in 0..(if quick { 36 } else { 400 }) {
+        let ty = ["f64", "rat", "i64", "f32", "i32", "f64"][h % 6];
+        let (r, c) = (rng.gen_range(0..=6usize), rng.gen_range(0..=6usize)); let (r2, c2) = if h % 3 == 0 { (r, c) } else { (rng.gen_range(0..=6usize), rng.gen_range(0..=6usize)) };
+        let mut case = json!({"ty": ty, "init": rand_mat_json(&mut rng, r, c, -9, 9), "init2": rand_mat_json(&mut rng, r2, c2, -9, 9)});
+        let mut sh = [(r, c), (r2, c2)]; let mut dbl = [0u32, 0u32]; let mut ops = vec![];
+        for _ in 0..(if quick { 40 } else { 80 }) {
+            let o = rng.gen_range(0..2usize);
+            let (mut op, nr, nc) = rand_op(&mut rng, sh[o].0, sh[o].1, false, ty == "f64", &mut dbl[o], true);
+            if o == 1 { op["obj"] = json!(2); }
+            sh[o] = (nr, nc); ops.push(op);
+        }
+        case["ops"] = Value::from(ops);
+        push(out, case);
+    }
+    // (n) the 40-operation history per shape again for f32 and i32
+    for r in 0..=8usize { for c in 0..=8usize {
+        if quick && (r + 2 * c) % 5 != 0 { continue; }
+        let ty = if (r + c) % 2 == 0 { "f32" } else { "i32" };
+        let mut case = json!({"ty": ty, "init": rand_mat_json(&mut rng, r, c, -9, 9)});
+        let (mut cr, mut cc) = (r, c); let mut ops = vec![]; let mut dbl = 0u32;
+        for _ in 0..40 { let (o, nr, nc) = rand_op(&mut rng, cr, cc, false, false, &mut dbl, true); ops.push(o); cr = nr; cc = nc; }
+        case["ops"] = Value::from(ops);
+        push(out, case);
+    } }
     // (d) exact scalar division on multiples
     for _ in 0..(if quick { 20 } else { 200 }) {
         let ty = TYS[rng.gen_range(0..4)]; let s = [2i64, -2, 3, -3, 5, 7][rng.gen_range(0..6)];
